@@ -489,19 +489,18 @@ def expect(c, w, L):
         if cls == "1mod8" and ar > 1 and ample:
             # root causes seen on the pinned tree get their own label (stable keys):
             # the temporaries are sized from digit counts, bn_mod_exp wants count >= m->count
-            if cn(1) > 1 + 2 * max(nd(ar, w), nd(m, w)):
+            b_, tm_, tries = ar, m, ar.bit_length()
+            while True:
+                tm_ >>= 1
+                b_ ^= tm_
+                if O.legendre(b_, m) == -1:
+                    break
+                tries -= 1
+                if tries == 0:
+                    cls += ":nonresidue-search-exhausted"
+                    break
+            if tries and cn(1) > 1 + 2 * max(nd(ar, w), nd(m, w)):
                 cls += ":modulus-capacity-exceeds-temporaries"
-            else:
-                b_, tm_, tries = ar, m, ar.bit_length()
-                while True:
-                    tm_ >>= 1
-                    b_ ^= tm_
-                    if O.legendre(b_, m) == -1:
-                        break
-                    tries -= 1
-                    if tries == 0:
-                        cls += ":nonresidue-search-exhausted"
-                        break
         return Exp("must" if ample else "may", verify=ver, label=cls, free=(S[0],))
 
     if op == OP_NAF:
@@ -1428,7 +1427,7 @@ def behaviour_class(c, w, exp, outcome):
 UB_RE = None
 
 
-def run_cases_ex(exe, cases, env_extra=None, wall_timeout=1800, max_hangs=2):
+def run_cases_ex(exe, cases, env_extra=None, wall_timeout=1800, max_hangs=1):
     """like common.run_cases but also returns the sanitizer text printed by runs that did not die
     (UBSan/MSan are built recoverable so that every case still yields an observation)."""
     import struct
@@ -1626,6 +1625,9 @@ def evaluate(c, v, res, part, soft_only=False):
     return outcome
 
 
+HANG_LIMIT = 6
+
+
 def work_chunk(job):
     """job: dict(seed, chunk, n, pool, variants=[(vdict, exe)]) - all variants share one digit width"""
     part = common.new_part()
@@ -1635,6 +1637,12 @@ def work_chunk(job):
         if v.get("light"):
             sel = [c for c in sel if not heavy(c)]
         if not sel:
+            continue
+        hfile = os.path.join(job["hangdir"], variant_name(v)) if job.get("hangdir") else None
+        if hfile and os.path.exists(hfile) and os.path.getsize(hfile) >= HANG_LIMIT:
+            # this build already hung HANG_LIMIT times in this run (each hang burns a full CPU budget and
+            # is reported as a violation): do not feed it further batches
+            common.part_count(part, "batches_not_run_after_%d_hangs:%s" % (HANG_LIMIT, variant_name(v)))
             continue
         # arguments outside the memory-safe domain of the void shift functions may corrupt the heap
         # silently in builds without ASan: those cases get a process of their own
@@ -1665,6 +1673,12 @@ def work_chunk(job):
             part["observations"][k] = part["observations"].get(k, 0) + n
         for c, res in zip(sel, results):
             evaluate(c, v, res, part)
+            if hfile and isinstance(res, common.Crash) and res.kind == "hang":
+                try:
+                    with open(hfile, "ab") as fh:
+                        fh.write(b"x")
+                except OSError:
+                    pass
         if len(results) < len(sel):
             part["inconclusive"].append("driver produced %d of %d results in %s" % (len(results), len(sel), variant_name(v)))
         common.part_count(part, "variant_cases:" + variant_name(v), len(sel))
@@ -1828,17 +1842,20 @@ def run(tier):
     if tier == "quick":
         nchunks, per = 30, 500
     else:
-        nchunks, per = 260, 500
+        nchunks, per = 220, 500
     nchunks = int(os.environ.get("C01_CHUNKS", nchunks))
     jobs = []
     by_w = {}
+    hangdir = os.path.join(common.BUILD_DIR, "c01_hangs_%d" % os.getpid())
+    os.makedirs(hangdir, exist_ok=True)
     for v, exe in live:
         by_w.setdefault(v["w"], []).append((v, exe))
     for ch in range(nchunks):
         for w, lst in sorted(by_w.items()):
             # split wide groups so that jobs stay short
             for i in range(0, len(lst), 6):
-                jobs.append({"seed": seed, "chunk": ch, "n": per, "pool": pool, "variants": lst[i:i + 6]})
+                jobs.append({"seed": seed, "chunk": ch, "n": per, "pool": pool, "variants": lst[i:i + 6],
+                             "hangdir": hangdir})
     # exhaustive slices on the 8-bit plain builds (both multiply/divide implementations)
     ejobs = []
     exh_variants = [(v, exe) for v, exe in live
@@ -1860,6 +1877,8 @@ def run(tier):
         for k, n in part.pop("viol_counts", {}).items():
             viol_counts[k] = viol_counts.get(k, 0) + n
         rep.merge(part)
+    import shutil
+    shutil.rmtree(hangdir, ignore_errors=True)
     for k, n in viol_counts.items():
         if k in rep.violations:
             rep.violations[k]["count"] = max(rep.violations[k]["count"], n)
@@ -1885,8 +1904,19 @@ def run(tier):
         "library_calls": exh_total, "per_variant": exh,
     }
     rep.extra["case_stream"] = {"chunks": nchunks, "cases_per_chunk": per, "distinct_cases": nchunks * per}
-    missing = [OPNAME[o] for o, _ in OP_WEIGHTS if not any(k.startswith(OPNAME[o]) or
-               (o in (OP_IMPORT, OP_EXPORT, OP_DIGIT, OP_MOD_INV)) for k in per_op)]
+    want_names = set()
+    for o, _ in OP_WEIGHTS:
+        if o == OP_IMPORT:
+            want_names.update("bn_import_" + k for k in IMPEXP)
+        elif o == OP_EXPORT:
+            want_names.update("bn_export_" + k for k in IMPEXP)
+        elif o == OP_MOD_INV:
+            want_names.update(INVNAME)
+        elif o == OP_DIGIT:
+            want_names.update(DIGITSUB)
+        else:
+            want_names.add(OPNAME[o])
+    missing = sorted(n for n in want_names if not per_op.get(n))
     if missing:
         rep.inconclusive.append("operations never executed: %s" % ",".join(missing))
     if exh_variants and exh_total == 0:
